@@ -246,8 +246,9 @@ class C13(Prop):
 
     # ------------------------------------------------------------------ second-round generators (seeds2/C13)
 
-    # stream headers on which `poll_type` answers Pending: nothing yet; first byte of a 2- / 4- / 8-byte type; the
-    # WebTransport type (1- and 2-byte form) or the push type without the second integer; WebTransport type + a partial id
+    # stream headers on which `poll_type` answers Pending: nothing yet; first byte of a 2- / 4- / 8-byte type (`40`, `54`,
+    # `80`, `c0`); the WebTransport type (0x54 = `4054`, it has no one-byte form) or the push type without the second
+    # integer; WebTransport type + a partial id (`405480`).  `5440` is a COMPLETE two-byte type (0x1440, unknown).
     PRE_BASIC = ["-", "40", "4054", "54", "01"]
     PRE_MORE = ["80", "c0", "800000", "c0000000000000", "5440", "405480", "0140", "4001", "bf00", "bf"]
     PATTERNS = ["1", "2", "3", "5", "7", "11", "10,7", "1,0,2", "8", "13,1", "0,1", "4,4,1", "20,20", "41", "64"]
@@ -378,7 +379,7 @@ class C13(Prop):
     M62 = 2**62 - 1
     # stream headers that are COMPLETE and resolve to something other than a control / push stream: grease and other unknown
     # types (1-, 2-, 8-byte form), QPACK encoder / decoder stream, WebTransport stream + session id
-    PRE_FULL = ["21", "02", "03", "5400", "5404", "4040", "405408", "c000000000000021", "3f", "4021"]
+    PRE_FULL = ["21", "02", "03", "405400", "40544040", "4040", "405408", "c000000000000021", "3f", "5440"]
 
     def _local_cfgs(self, role):
         """classes of the LOCAL configuration: (tokens, mfs, wts)"""
@@ -450,7 +451,7 @@ class C13(Prop):
                 for q in ([f] for f in self.PRE_FULL):
                     for p in (C[3], C[-5]):
                         L.append("set applyq %s %s 0 %s%s" % (role, hx(p), ",".join(q), tail))
-                for q in (["21", "-", "02"], ["5400", "03", "40"], ["02", "03", "5404", "21"], ["54", "21", "4054", "3f"]):
+                for q in (["21", "-", "02"], ["405400", "03", "40"], ["02", "03", "405408", "21"], ["54", "21", "4054", "3f"]):
                     for p in C[1:8:3]:
                         total = 1 + 1 + len(vi(len(p))) + len(p)
                         for cut in (0, total // 2):
